@@ -228,6 +228,10 @@ def known_matcher(pid):
         if inv in ('C08_NoPanic', 'C08_ReqNoPanic') and 'maxlevel-panic' in ks:
             if ctx['req'].get(key, {}).get('panic') == 'maxlevel':
                 return ks['maxlevel-panic']
+        if inv == 'C01_FlushFits' and 'exit-after-size-check' in ks and ev.get('ev') == 'req':
+            # graceful end (session unwound by this Flush) -> the excess is the appended exit value
+            if not ev['cont'] and not ev['err'] and ev['post2']['path'] == [] and ev['post']['path'] != []:
+                return ks['exit-after-size-check']
         if inv == 'C20_Blocked' and 'blocked-dirty-leftover' in ks and ev.get('ev') == 'req':
             if 4 in ev['pre']['flags'] and 6 in ev['pre']['flags']:
                 return ks['blocked-dirty-leftover']
